@@ -90,7 +90,8 @@ class CachingMachine(Machine):
         family = rng.choices(["multilinear", "poly", "sines"], weights=[30, 30, 40])[0]
         func = random_spec(rng, dim, family)
         fbmode = rng.choices(["none", "true", "loose", "degenerate"], weights=[45, 25, 20, 10])[0]
-        config = {"dim": dim, "area": area, "res": res, "nbe": rng.random() < 0.4, "fbmode": fbmode,
+        nested = family == "multilinear" and rng.random() < 0.2
+        config = {"dim": dim, "area": area, "res": res, "nbe": rng.random() < 0.4, "fbmode": fbmode, "nested": nested,
                   "func": func, "faults": rng.random() < 0.45,
                   "fault_kind": rng.choice(["error", "interrupt"])}
         nodes = [node_layout(a[0], a[1], r) for a, r in zip(area, res)]
@@ -108,6 +109,24 @@ class CachingMachine(Machine):
             pts.sort(key=lambda t: sum((a - b) ** 2 for a, b in zip(t[1], c)))
         elif order == "repeat":
             pts = (pts[: max(2, nops // 3)] * 3)[:nops]
+        if rng.random() < 0.3:
+            # leave the area along one axis and come straight back to the same point (and variants sharing coordinates)
+            extra = []
+            for _ in range(rng.randint(1, 4)):
+                kind0, p0 = self._point(rng, area, nodes, res, inside_only=True)
+                ax = rng.randrange(dim)
+                a = area[ax]
+                pout = list(p0)
+                pout[ax] = rng.choice([a[0] - 0.3 * (a[1] - a[0]) - 0.01, a[1] + 0.3 * (a[1] - a[0]) + 0.01])
+                extra += [(kind0, p0), ("outside", pout), (kind0, list(p0))]
+                if dim > 1:
+                    ax2 = (ax + 1) % dim
+                    pmix = list(pout)
+                    pmix[ax] = p0[ax]
+                    pmix[ax2] = rng.uniform(area[ax2][0], area[ax2][1])
+                    extra.append(("inside", pmix))
+            k = rng.randrange(len(pts) + 1)
+            pts = pts[:k] + extra + pts[k:]
         ops = []
         for kind, p in pts:
             u = rng.random()
@@ -165,7 +184,21 @@ class CachingMachine(Machine):
         return kind, [float(v) for v in p]
 
     # ------------------------------------------------------------------ execution
+    def _inner(self, cfg, func):
+        """The function handed to a cache: either the SimFunction itself or another cache around it on a different, wider grid
+        with no_boundary_error (so it is defined wherever the outer cache samples)."""
+        if not cfg.get("nested"):
+            return func
+        dim = cfg["dim"]
+        area = tuple(v for a, r in zip(cfg["area"], cfg["res"]) for v in (a[0] - 2.5 * r - 0.3, a[1] + 2.5 * r + 0.3))
+        res = [r * 0.61 for r in cfg["res"]]
+        if dim == 1:
+            return Caching1D(func, area, res[0], no_boundary_error=True)
+        cls = Caching2D if dim == 2 else Caching3D
+        return cls(func, area, tuple(res), no_boundary_error=True)
+
     def _make_cache(self, cfg, func, fb="cfg"):
+        func = self._inner(cfg, func)
         dim = cfg["dim"]
         if fb == "cfg":
             fb = self._fb(cfg)
@@ -270,7 +303,10 @@ class CachingMachine(Machine):
                 if how != "ok":
                     raise Violation("outside-passthrough", who, "p=%r outside the area with no_boundary_error: raised %r" % (p, val))
                 fv = c.ref.value(*p)
-                if not (val == fv or (val != val and fv != fv)):
+                same = (val == fv or (val != val and fv != fv))
+                if c.cfg.get("nested"):
+                    same = same or abs(val - fv) <= 1e-12 * c.range      # the wrapped function is itself a cache of f
+                if not same:
                     raise Violation("outside-passthrough", who, "p=%r: returned %r, wrapped function gives %r" % (p, val, fv))
                 env.probe("outside_passthrough")
             else:
